@@ -140,5 +140,8 @@ def run(ctx):
               "verify_class_changes_with_json", "verify_class_changes_with_binary"):
         if c.get(k, 0):
             ctx.note("%s=%d %s" % (k, c[k], rep.get("summary", {}).get(k + "_example", "")))
+    for k, v in (rep.get("summary") or {}).items():
+        if k.startswith("probe_"):
+            ctx.note("outside the statement (recorded, not alarmed) %s: %s" % (k, v))
     for s in cases[:2]:
         ctx.sample({"tlc_case": s})
